@@ -548,6 +548,7 @@ type rangeInfo struct {
 	Table *types.Var
 	K     string // "1","2","4","5" or "36"
 	Stmt  ast.Stmt
+	PerEQ bool // the table holds this EQ only: table[level]
 }
 
 type digitInfo struct {
@@ -680,6 +681,20 @@ func (w *World) parseLoopNest(m *scoreModel, add func(ok bool, rule, inst string
 	var digitOf func(e ast.Expr) (types.Object, int, bool)
 	digitOf = func(e ast.Expr) (types.Object, int, bool) {
 		e = unparen(e)
+		// a field of a record-typed candidate: field i of n is digit n-1-i
+		if se, ok := e.(*ast.SelectorExpr); ok {
+			if rv := rvOf(se.X); rv != nil {
+				if tv, ok := info.Types[se.X]; ok {
+					if st, ok := tv.Type.Underlying().(*types.Struct); ok {
+						for i := 0; i < st.NumFields(); i++ {
+							if st.Field(i).Name() == se.Sel.Name {
+								return rv, st.NumFields() - 1 - i, true
+							}
+						}
+					}
+				}
+			}
+		}
 		if call, ok := e.(*ast.CallExpr); ok {
 			if tv, isT := info.Types[call.Fun]; isT && tv.IsType() && len(call.Args) == 1 {
 				e = unparen(call.Args[0])
@@ -861,7 +876,16 @@ func (w *World) parseLoopNest(m *scoreModel, add func(ok bool, rule, inst string
 				if okShape {
 					ix1, ok := ix2.X.(*ast.IndexExpr)
 					if !ok {
-						okShape = false
+						// tableOfThisEQ[level]
+						if tv, isVar := identObj(info, unparen(ix2.X)).(*types.Var); isVar && tv.Parent() == p.P.Types.Scope() {
+							if k := eqIndex(identObj(info, ix2.Index)); k == 1 || k == 2 || k == 4 || k == 5 {
+								ri.Table, ri.K, ri.PerEQ = tv, fmt.Sprint(k), true
+							} else {
+								okShape = false
+							}
+						} else {
+							okShape = false
+						}
 					} else {
 						tv, _ := identObj(info, ix1.X).(*types.Var)
 						ri.Table = tv
